@@ -156,6 +156,7 @@ func (e *Exec) findAcct(addr []*Term) *acct {
 	// untracked account: arbitrary non-negative balance
 	env.nAuto++
 	t := e.input(fmt.Sprintf("bal.auto%d", env.nAuto), SInt)
+	t.NN = true
 	e.addPC(e.tt.IntCmp(">=", t, e.tt.Int64(0)))
 	a := &acct{Addr: append([]*Term{}, addr...), Bal: t, Auto: true, Init: t}
 	env.Accts = append(env.Accts, a)
@@ -473,11 +474,13 @@ func (e *Exec) param(env *EnvModel, key string) Value {
 		v = e.constStr("stake")
 	case "SlashFraction":
 		t := e.input("param.SlashFraction", SInt)
+		t.NN = true
 		e.addPC(e.tt.IntCmp(">=", t, e.tt.Int64(0)))
 		e.addPC(e.tt.IntCmp("<=", t, one))
 		v = &BigVal{T: t}
 	case "ServiceFeeTax":
 		t := e.input("param.ServiceFeeTax", SInt)
+		t.NN = true
 		e.addPC(e.tt.IntCmp(">=", t, e.tt.Int64(0)))
 		e.addPC(e.tt.IntCmp("<", t, one))
 		v = &BigVal{T: t}
@@ -489,6 +492,7 @@ func (e *Exec) param(env *EnvModel, key string) Value {
 		v = t
 	case "MinDeposit":
 		t := e.input("param.MinDeposit", SInt)
+		t.NN = true
 		e.addPC(e.tt.IntCmp(">", t, e.tt.Int64(0)))
 		coin := &StructVal{Fields: []Value{e.constStr("stake"), &BigVal{T: t}}}
 		arr := &ArrayVal{Elems: []Value{coin}}
